@@ -9,6 +9,13 @@ ALPHA = list('ifelsxab=+;0 1IF') + ['  ', 'if', 'else', 'ab', '==', 'a1', 'int',
 
 
 def gen_case(rng, big=False):
+    if not big and rng.random() < 0.06:
+        # two parser states whose sets of acceptable terminal *names* look alike once joined: {A, B} after "(" and {A_B} after "["
+        pa, pb, pab = rng.sample(['"a"', '"b"', '"ab"', '/[a-c]+/', '"if"', '/[0-9]+/', '"x"'], 3)
+        g = 'start: item*\nitem: "(" (A | B) ")" | "[" A_B "]"\nA: %s\nB: %s\nA_B: %s\n' % (pa, pb, pab) + ('WS: /[ \\t]+/\n%ignore WS\n' if rng.random() < 0.6 else '')
+        toks = ['(', ')', '[', ']', 'a', 'b', 'ab', 'if', '1', 'x', 'c', ' ']
+        texts = [''.join(rng.choice(toks) for _ in range(rng.randint(0, 8))) for _ in range(2)] + [rng.choice(['(a)[ab]', '[ab](b)', '[a](ab)', '(x)[1][if]'])]
+        return g, texts
     terms = []
     used = set()
     nstr, nre = rng.randint(0, 5), rng.randint(0 if rng.random() < 0.3 else 1, 3)
